@@ -150,6 +150,65 @@ theorem ssh_session_independent (dt : DevType) (host banner p1 p2 errText : Str)
       allSinks (sshRun (sessionOps (loadProg dt host banner) p2 errText segs applies tl tailAbort)) :=
   ssh_program_independent _ p1 p2 errText segs applies tl tailAbort
 
+/-! ### devices that echo what they receive -/
+
+/-- **State machine of the login dialogue** (`cisco.LoginEnable` after fix d8ddbd1, `linux.loginEnable`,
+and everything behind them up to the end of `LoadDevice`): for every device the password is only ever
+sent immediately after an expect whose chunk ends in `password:`. -/
+theorem password_sent_only_at_password_prompt (dt : DevType) (host banner : Str) :
+    Guarded false (loadProg dt host banner) := by
+  cases dt
+  · exact guarded_asaLoad host
+  · exact guarded_iosLoad host
+  · exact guarded_linuxLoad host banner
+
+/-- **Echoing devices.**  The device may echo any line it receives (as real devices do with commands).
+For every program that sends the password only at password prompts and every device that does not
+echo what it receives right after a password prompt (`noEchoAtPasswordPrompt`), the sinks are the
+same for any two passwords. -/
+theorem ssh_echo_device_independent (prog : Prog) (hg : Guarded false prog) (p1 p2 : Str) (dev : EDev)
+    (hdev : noEchoAtPasswordPrompt dev = true) :
+    allSinks (sshRun (runE p1 prog [] dev)) = allSinks (sshRun (runE p2 prog [] dev)) :=
+  ssh_sinks_independent _ _ (runE_erase p1 p2 hg [] [] dev (Or.inl rfl) (fun h => by cases h) hdev)
+
+/-- … in particular for the three back ends. -/
+theorem ssh_echo_session_independent (dt : DevType) (host banner p1 p2 : Str) (dev : EDev)
+    (hdev : noEchoAtPasswordPrompt dev = true) :
+    allSinks (sshRun (runE p1 (loadProg dt host banner) [] dev)) =
+      allSinks (sshRun (runE p2 (loadProg dt host banner) [] dev)) :=
+  ssh_echo_device_independent _ (password_sent_only_at_password_prompt dt host banner) p1 p2 dev hdev
+
+/-- The hypothesis is necessary: a device that echoes what is typed at its password prompt puts the
+password into `.login` (outside the guarantee; observed on the real code with such a simulated device). -/
+theorem ssh_echo_at_password_prompt_counterexample :
+    ∃ dev : EDev, noEchoAtPasswordPrompt dev = false ∧
+      (sshRun (runE "pw1".toList (iosLoad "router".toList) [] dev)).login ≠
+        (sshRun (runE "pw2".toList (iosLoad "router".toList) [] dev)).login :=
+  ⟨[([], "Enter Password:".toList, false), ([], "\nbanner motd\nrouter>".toList, true)], by decide, by decide⟩
+
+/-- **Finding F-C17b (fixed, d8ddbd1)**: with the login code as it was, a device that refuses `enable`
+without asking for a password (IOS `% No password set`, prompt stays `>`) and echoes commands — but
+never anything typed at a password prompt — gets the login password as a command and echoes it into
+`.login`. -/
+theorem enable_without_prompt_counterexample :
+    ∃ dev : EDev, noEchoAtPasswordPrompt dev = true ∧
+      (sshRun (runE "pw1".toList iosLoadOld [] dev)).login ≠ (sshRun (runE "pw2".toList iosLoadOld [] dev)).login ∧
+      (sshRun (runE "pw1".toList (iosLoad "router".toList) [] dev)).login =
+        (sshRun (runE "pw2".toList (iosLoad "router".toList) [] dev)).login :=
+  ⟨[([], "Enter Password:".toList, false), ([], "\nbanner motd\nrouter>".toList, false),
+     ([], "% No password set\nrouter>".toList, true), ([], "% Unknown command\nrouter>".toList, true)],
+    by decide, by decide, by decide⟩
+
+/-- … so that code did not have the state-machine property. -/
+theorem old_login_not_guarded : ¬ Guarded false iosLoadOld := by
+  intro hg
+  obtain ⟨dev, hdev, hne, _⟩ := enable_without_prompt_counterexample
+  have := ssh_echo_device_independent iosLoadOld hg "pw1".toList "pw2".toList dev hdev
+  exact hne (congrArg (fun a => a.sessions.login) this)
+
+example : noEchoAtPasswordPrompt [([], "Password:".toList, false), ([' '], "\nType help\nrouter>".toList, false),
+    ([], "Password:".toList, true), ([], "\nrouter#".toList, false)] = true := by decide
+
 /-- The step model is not vacuous: an IOS login with enable password sends the password twice and
 logs the three prompts to `.login`, nothing else. -/
 example :
@@ -308,7 +367,9 @@ def obligations : List Lean.Name := [
   ``mask_api_amp_counterexample, ``mask_body_newline_counterexample,
   ``nsx_login_log_independent, ``nsx_sinks_independent,
   ``ssh_log_is_device_output_only, ``ssh_sinks_independent, ``ssh_login_log_is_expected_output,
-  ``ssh_program_independent, ``ssh_session_independent,
+  ``ssh_program_independent, ``ssh_session_independent, ``password_sent_only_at_password_prompt,
+  ``ssh_echo_device_independent, ``ssh_echo_session_independent, ``ssh_echo_at_password_prompt_counterexample,
+  ``enable_without_prompt_counterexample, ``old_login_not_guarded,
   ``sinks_independent_counterexample, ``sinks_counterexample_line, ``sinks_independent_partial,
   ``sinks_independent_login_failure, ``sinks_independent,
   ``parse_api_key_returns_key, ``sinks_independent_parsed_partial]
